@@ -6,7 +6,7 @@ compile); exactly one addActivity per executed update; every displayed tensor ge
 per rank naming an element of the tensor as displayed; when each rank's levels are looped outermost to
 innermost (every loop rank is stamped by construction) no two activities carry the same (space, time) stamp."""
 import json, random
-import common, pool, specs, gens, c02, c06, semcheck
+import common, pool, specs, gens, c02, c04, c06, semcheck
 
 
 def level_sorted(d):
@@ -22,7 +22,7 @@ def level_sorted(d):
 
 
 def run(ctx):
-    ctx.rule = ("G1-G3 specifications with a generated spacetime mapping (every split of the loop ranks into space/time, styles bare/.pos/.coord, slip on/off), executed on 2 random "
+    ctx.rule = ("G1-G4 specifications with a generated spacetime mapping (every split of the loop ranks into space/time, styles bare/.pos/.coord, slip on/off), executed on 2 random "
                 "inputs under several hash seeds; non-trivial = program with at least one loop and one activity; distinct = distinct text")
     ctx.trusted = ["Lean kernel; Props/C16 (stamp algebra)", "that the emitted stamp components are the coordinate / position / relative coordinate of each loop is read off the emitted text by "
                    "execution (sampled), not derived from a model of Canvas", "minifiber's recorder of createCanvas/addActivity calls"]
@@ -32,13 +32,15 @@ def run(ctx):
                               dict(gen="g2", count=40 * k, modes=["spacetime"], nexec=2, reference=True, opts={"order": "levelsorted"}),
                               dict(gen="g2", count=15 * k, modes=["spacetime"], nexec=2, reference=True, opts={"order": "perm"}),
                               dict(gen="g3", count=50 * k, modes=["spacetime"], nexec=2, reference=True),
-                              dict(gen="g3x", count=30 * k, modes=["spacetime"], nexec=2, reference=True)])
+                              dict(gen="g3x", count=30 * k, modes=["spacetime"], nexec=2, reference=True),
+                              dict(gen="g4", count=70 * k, modes=["spacetime"], nexec=2, reference=True)])
     keep = []
     for r in recs:
         if r["ok"] and c06.flattened_stamp_vars(r["yaml"]):
             ctx.stat("excluded_coord_stamp_on_flattened_rank"); continue
         keep.append(r)
-    c02.check_records(ctx, keep)            # observation-only: same tensors as the oracle and as the unmapped compile
+    ctx.findings = ctx.findings + common.load_findings("C04")      # convolutions outside C04's claimed class stay C04's findings
+    c02.check_records(ctx, keep, classify=lambda case, r: c04.classify(case, r) if "conv" in case["tags"] else set())      # observation-only: same tensors as the oracle and as the unmapped compile
     for r in keep:
         if not r["ok"]:
             continue
